@@ -4,6 +4,7 @@
 package cbor
 
 import (
+	"bufio"
 	"bytes"
 	"fmt"
 	"io"
@@ -304,8 +305,18 @@ type source struct {
 	consumed func() int
 }
 
+type onlyRead struct{ r io.Reader }
+
+func (o onlyRead) Read(p []byte) (int, error) { return o.r.Read(p) }
+
 func drawSource(c *core.Ctx, stream []byte, plan core.ReaderPlan) (source, core.ReaderPlan) {
-	switch c.Pick("source.kind", 5) {
+	switch c.Pick("source.kind", 6) {
+	case 2:
+		// a bufio.Reader (whose Peek / Discard invite zero-copy shortcuts) over the whole stream
+		b := bytes.NewReader(stream)
+		br := bufio.NewReaderSize(onlyRead{b}, c.PickInt("source.bufio", 16, 64, 4096))
+		c.Sig("src:bufio.Reader")
+		return source{br, func() int { return len(stream) - b.Len() - br.Buffered() }}, core.ReaderPlan{ErrAt: -1}
 	case 0:
 		b := bytes.NewBuffer(append([]byte(nil), stream...))
 		c.Sig("src:bytes.Buffer")
